@@ -20,7 +20,7 @@ RULE = ('cases = curves (lower/upper chain) and point sets in several row orders
         'omits at least one input point (a real selection was made)')
 ASSUMPTIONS = ['orientation is evaluated exactly (integer / dyadic coordinates)',
                '"lowest-leftmost" start accepted as either leftmost-then-lowest or lowest-then-leftmost']
-BOUNDS = {'quick': {'chains': 'A n<=5 complete, A12 n=6', 'graham_scan': 'all subsets of the 4x4 lattice of size 3..5, 3 row orders'},
+BOUNDS = {'quick': {'re-embedded': 'chains A12 n=5 and lattice sets (size<=5) at scales 2^-24, 2^-40, (2^20,2^30)', 'chains': 'A n<=5 complete, A12 n=6', 'graham_scan': 'all subsets of the 4x4 lattice of size 3..5, 3 row orders'},
           'thorough': {'chains': 'A n<=6 complete, A1 n=7,8', 'graham_scan': 'all subsets of 4x4 lattice size 3..7 and of the 5x5 lattice size 3..4, 3 row orders'}}
 TECHNIQUE = 'exhaustive enumeration of small curves / lattice subsets on the real hull routines against brute-force exact-orientation hulls'
 LEVEL_TEXT = ('Model checking by complete enumeration: all curves of the alphabet up to the bound and all subsets of a small lattice (general position and every '
@@ -35,6 +35,8 @@ def units(tier, seed):
         [('A', 2, 1), ('A', 3, 1), ('A', 4, 4), ('A', 5, 16), ('A', 6, 256), ('A1', 7, 8), ('A1', 8, 32)]
     b = curves.bonus(seed)
     plan.append((b.name, 4, 4))
+    for sx, sy in ((2.0 ** -24, 2.0 ** -24), (1.0, 2.0 ** -40), (2.0 ** 20, 2.0 ** 30)):
+        plan.append((curves.scaled(curves.A12, sx, sy).name, 5, 16))
     for prof, n, K in plan:
         for k in range(K):
             u.append(('chain', prof, n, k, K))
@@ -43,11 +45,16 @@ def units(tier, seed):
     for sz in sizes:
         K = {3: 1, 4: 2, 5: 8, 6: 16, 7: 32}[sz]
         for k in range(K):
-            u.append(('set', 4, sz, k, K, shift))
+            u.append(('set', 4, sz, k, K, shift, 1.0))
+    for sc in (2.0 ** -24, 2.0 ** -40):
+        for sz in (3, 4, 5):
+            K = {3: 1, 4: 2, 5: 8}[sz]
+            for k in range(K):
+                u.append(('set', 4, sz, k, K, 0, sc))
     if tier == 'thorough':
         for sz, K in ((3, 2), (4, 16)):
             for k in range(K):
-                u.append(('set', 5, sz, k, K, shift))
+                u.append(('set', 5, sz, k, K, shift, 1.0))
     return u
 
 
@@ -56,6 +63,7 @@ def WARM():
 
 
 def orient(a, b, c):
+    a, b, c = [(Fraction(p[0]), Fraction(p[1])) for p in (a, b, c)]
     return (b[0] - a[0]) * (c[1] - a[1]) - (c[0] - a[0]) * (b[1] - a[1])
 
 
@@ -197,8 +205,8 @@ def run_unit(unit, res):
                 res.sample({'curve': {'x': xs, 'y': ys}, 'lower_chain': info[0] if info else None})
         res.notes['chain_n_max_' + prof.split('+')[0]] = n
     else:
-        _, side, sz, k, K, shift = unit
-        lat = [(x + shift, y - shift) for x in range(side) for y in range(side)]
+        _, side, sz, k, K, shift, sc = unit
+        lat = [((x + shift) * sc, (y - shift) * sc) for x in range(side) for y in range(side)]
         first = True
         for ci, comb in enumerate(itertools.combinations(range(len(lat)), sz)):
             if ci % K != k:
